@@ -80,6 +80,9 @@ func NewExec(p *Program, fn *ssa.Function, fc *FuncContract, pc *PkgContracts) *
 }
 
 func solveAll(results []*OblResult, timeoutS int, workers int, order []int) {
+	for _, r := range results {
+		r.Script = r.Ex.buildQuery(r.Obl, nil)
+	}
 	var wg sync.WaitGroup
 	ch := make(chan *OblResult)
 	for i := 0; i < workers; i++ {
@@ -87,7 +90,6 @@ func solveAll(results []*OblResult, timeoutS int, workers int, order []int) {
 		go func() {
 			defer wg.Done()
 			for r := range ch {
-				r.Script = r.Ex.buildQuery(r.Obl, nil)
 				r.Res = Solve(r.Script, timeoutS, order)
 				switch {
 				case r.Obl.ExpectSat && r.Res.Status == "sat":
@@ -135,6 +137,7 @@ func cmdVerify(args []string) {
 	timeout := fs.Int("timeout", 10, "per-obligation timeout (s)")
 	dump := fs.String("dump", "", "regexp of obligation names whose SMT script is printed")
 	only := fs.String("only", "", "regexp of obligation names to solve")
+	workers := fs.Int("j", 14, "parallel solver processes")
 	showAssume := fs.Bool("abstr", false, "print abstraction notes")
 	fs.Parse(args)
 	t0 := time.Now()
@@ -160,7 +163,7 @@ func cmdVerify(args []string) {
 			all = append(all, o)
 		}
 	}
-	solveAll(all, *timeout, 14, []int{0, 1, 2})
+	solveAll(all, *timeout, *workers, []int{0, 1, 2})
 	for _, r := range all {
 		fmt.Printf("%-12s %-7s %5.2fs  %s\n", r.Status, r.Res.Solver, r.Res.Time, r.Obl.Name)
 		if r.Status != "discharged" && r.Status != "cover-ok" {
